@@ -96,6 +96,18 @@ Proof.
   rewrite (head_breakpoints x g lb ub Hg Hl Hu), head_direction, head_filter. reflexivity.
 Qed.
 
+(* ... and so is its final move  is_moving = d != 0; x_cp[is_moving] = np.clip(x + t_old * d, lb, ub)[is_moving]  - the statement in
+   which the tied-breakpoint defect lived (repaired by fix: 2a903c7; the former mask t >= t_cur does not satisfy this theorem) *)
+Theorem C08f_final_move_from_source : forall (t_old : float) (xcp x d lb ub : vec),
+  length x = length xcp -> length d = length xcp -> length lb = length xcp -> length ub = length xcp ->
+  B.cauchy_final_move t_old xcp x d lb ub = final_move t_old xcp x d lb ub.
+Proof.
+  intros t_old. unfold B.cauchy_final_move. cbv zeta.
+  induction xcp as [|c xcp IH]; intros x d lb ub Hx Hd Hl Hu; destruct x as [|xi x]; destruct d as [|di d]; destruct lb as [|l lb]; destruct ub as [|u ub]; try discriminate; [reflexivity|].
+  injection Hx as Hx. injection Hd as Hd. injection Hl as Hl. injection Hu as Hu. specialize (IH x d lb ub Hx Hd Hl Hu).
+  simpl. destruct (eqb di 0); simpl; f_equal; exact IH.
+Qed.
+
 (* what is NOT true in binary64 (witnesses by computation): a variable with g_i = 0 has t_i = inf > 0 and IS taken by the loop
    (it is "fixed" without being assigned); a NaN gradient component gives a NaN component of the Cauchy point *)
 Theorem C08f_zero_gradient_is_taken_by_the_loop :
@@ -104,6 +116,7 @@ Theorem C08f_zero_gradient_is_taken_by_the_loop :
 Proof. exact zero_gradient_is_fixed. Qed.
 
 Print Assumptions C08f_head_from_source.
+Print Assumptions C08f_final_move_from_source.
 Print Assumptions C08f_feasible.
 Print Assumptions C08f_sorted_breakpoints.
 Print Assumptions C08f_fixed_prefix.
